@@ -79,6 +79,10 @@ package api
 //   sendfails: number of sends that failed (writer missing or encoding error); hmn: HandleMessage invocations
 //@ ghost sendfails int
 //@ ghost hmn int
+// applied writes (C12): wapplied = number of writes applied so far (processWrite), wmsg[k] the k-th applied message
+//@ ghost wapplied int
+//@ ghost wmsg map[int]*api.Message
+//@ modset WRITE = wapplied, wmsg
 //@ modset RESP = rn, rcls, rref, rdst, rsdev, rsent, rsfeat, rerr, rcmd
 //@ define respSame = rn == old(rn) && rcls == old(rcls) && rref == old(rref) && rdst == old(rdst) && rsdev == old(rsdev) && rsent == old(rsent) && rsfeat == old(rsfeat) && rerr == old(rerr) && rcmd == old(rcmd)
 //@ define app1(M, s, K) = M == store(old(M), s, store(old(M)[s], K, M[s][K]))
